@@ -43,6 +43,13 @@ def streams_for(prop):
             S.append(dict(name="array-ops/arith", gen=ga.gen_arith, impl=ia.run, oracle=ra.check_case))
             S.append(dict(name="array-ops/reduce", gen=ga.gen_reduce, impl=ia.run, oracle=ra.check_case))
         S.append(dict(name="index", gen=gen_index.gen_index, impl=ia.run, oracle=ra.check_case))
+    elif prop in ("C03", "C08", "C09", "C10", "C16"):
+        import gen_dsm
+        import impl_dsm
+        import ref_dsm
+        from fractions import Fraction
+        S.append(dict(name="dsm", gen=gen_dsm.gen_dsm, impl=impl_dsm.run, oracle=ref_dsm.CHECKS[prop],
+                      mode="spec", abs_tol=Fraction(1, 10 ** 9)))
     elif prop == "C14":
         import gen_dims
         import ref_dims
@@ -56,6 +63,11 @@ PROPS = {
     "C01": dict(title="arithmetic by label"),
     "C07": dict(title="summing, casting, shares"),
     "C14": dict(title="dimension sets as ordered sets"),
+    "C03": dict(title="stocks conserve mass"),
+    "C08": dict(title="survival tables"),
+    "C09": dict(title="cohort tables"),
+    "C10": dict(title="inverse models, solver agreement"),
+    "C16": dict(title="causal, linear, label-independent"),
     "C04": dict(title="storage order independence"),
     "C05": dict(title="assignment keeps dims, sums by label"),
     "C06": dict(title="indexing by item labels"),
@@ -79,13 +91,29 @@ def run_streams(prop, tier, seed, search=False):
     all_streams = streams_for(prop)
     corpus = load_corpus(prop)
     for st in all_streams:
-        lines, gstats = st["gen"](tier, seed)
-        extra = []
-        for rec in corpus:
-            if rec.get("stream") == st["name"]:
-                extra += rec["lines"]
-        lines = extra + lines
-        bad, stats, impl_out, model_out = corr.correspond(lines, st["impl"])
+        if st.get("mode") == "spec":
+            # the implementation run produces the protocol lines (they carry values returned by
+            # external calls, e.g. scipy's survival functions)
+            specs, gstats = st["gen"](tier, seed)
+            extra_specs = []
+            for rec in corpus:
+                if rec.get("stream") == st["name"]:
+                    extra_specs += rec["specs"]
+            t_impl = time.time()
+            lines, impl_pre = st["impl"](extra_specs + specs)
+            t_impl = time.time() - t_impl
+            extra = [ln for ln in lines[:0]]
+            bad, stats, impl_out, model_out = corr.correspond(lines, None, abs_tol=st.get("abs_tol"),
+                                                              impl_out=impl_pre, impl_s=t_impl)
+            stats["corpus_specs"] = len(extra_specs)
+        else:
+            lines, gstats = st["gen"](tier, seed)
+            extra = []
+            for rec in corpus:
+                if rec.get("stream") == st["name"]:
+                    extra += rec["lines"]
+            lines = extra + lines
+            bad, stats, impl_out, model_out = corr.correspond(lines, st["impl"], abs_tol=st.get("abs_tol"))
         stats["generator"] = gstats
         stats["corpus_cases"] = sum(1 for ln in extra if ln.startswith("case "))
         if stats["bad_op"]:
